@@ -17,7 +17,7 @@ EXPLANATION = (
 ASSUMPTIONS = ["at most one task joins a given pika::thread at a time (API contract)",
                "thread::start_thread is only called from constructors (id_ written before the handle is shared)"]
 THOROUGH_CONFIGS = [["-UNDEBUG", "-DPIKA_DEBUG"]]
-FLOORS = {"C13.R1": 4, "C13.R2": 3, "C13.R3": 6, "C13.R4": 7, "C13.R5": 2, "C13.R6": 4}
+FLOORS = {"C13.R1": 4, "C13.R2": 3, "C13.R3": 6, "C13.R4": 7, "C13.R5": 2, "C13.R6": 4, "C13.R7": 5}
 
 TD = "pika::threads::detail::thread_data"
 
@@ -266,3 +266,10 @@ def run(rep, tier):
                     rep.bad("C13.R6", f, loc_of(ev), "locked-helper:" + callee_short(ev), "%s() requires mtx_ but is called without it" % callee_short(ev))
     if n6 < 3:
         raise AnalysisBroken("C13.R6 examined only %d accesses of thread::id_" % n6)
+
+    # ---- R7: the joiner's wake-up is delivered unconditionally (the same rule decides C02)
+    from .common import import_rules
+    import_rules(rep, tier, "C02", ("C02.R6",), "C13.R7",
+                 "K6 (shared with C02.R6): pika::resume_thread (the exit callback join() registers) and the agent resume chain deliver the "
+                 "wake-up on every path - join() returns however the target's exit and the joiner's suspension are interleaved")
+
